@@ -288,6 +288,15 @@ class FftScenario(Scenario):
                 rn = nid('R')
                 ev.append(E('propagate_fft', ['@' + w1], dict(k), id=rn, t=dict(tag)))
             ev.append(E('check.fft_pair', ['@' + w1, '@' + rs if rs else None, '@' + rn if rn else None, du, os_]))
+            os2 = os_ % 3 + 1
+            g2 = lam[i] * f * os2 / (dx * d0)
+            fits = abs(g2 - round(g2)) <= 0.3 and round(g2) >= max(S)      # supported regime, unambiguous grid
+            if (rng.random() < 0.25 or force) and not peraxis and fits:
+                # same pupil, same wavelength, same pixels -- another oversampling factor, in the same process (history)
+                k2 = {'pixelscale': du, 'oversample': os2}
+                r2 = nid('R')
+                ev.append(E('propagate_fft', ['@' + w1], k2, id=r2, t={'expect': 'ok', 'case': 'other-oversample', 'nfields': nfields}))
+                ev.append(E('check.fft_pair', ['@' + w1, None, '@' + r2, du, os2]))
             # refused calls placed inside the loop (fault F5)
             r = rng.random()
             if force.get('refusals') or r < 0.45:
